@@ -43,7 +43,7 @@ FunParams(t) == Tail(t.a)
 RECURSIVE IsTermSort(_)
 IsTermSort(t) ==
     CASE t.k \in {"Bool", "Int", "Real", "String"} -> TRUE
-      [] t.k = "BV" -> t.w > 0
+      [] t.k = "BV" -> t.w >= 0         \* pySMT lets one declare BV{0}; it is a width like any other for the typing rules
       [] t.k = "Array" -> Len(t.a) = 2 /\ IsTermSort(t.a[1]) /\ IsTermSort(t.a[2])
       [] t.k = "Sort" -> \A j \in 1..Len(t.a) : IsTermSort(t.a[j])
       [] OTHER -> FALSE
